@@ -9,7 +9,8 @@ def checks_for(m):
     if f.endswith("time_zone_info.cc"):
         c = ["C01", "C11", "C03", "C10", "C02", "C06"]
         if ln < 400 and ln > 140: c += ["C12"]            # Header / DataLength / rule extension
-        if 420 <= ln <= 600: return ["C19", "C20"]          # file / android / fuchsia sources
+        if 472 <= ln <= 575: return []                      # Android / Fuchsia sources: their files do not exist on this platform
+        if 400 <= ln < 472: return ["C19", "C20"]           # FileZoneInfoSource
         if 600 <= ln <= 850: c += ["C19", "C12"]            # ResetToBuiltinUTC / Load
         if ln >= 850: c += ["C14"]                           # BreakTime / MakeTime / transitions (hints)
         if 600 <= ln <= 634: c = ["C15"] + c
@@ -32,6 +33,10 @@ for l in open(inp):
     m = json.loads(l)
     if m["result"] != "survived": continue
     if m["op"].split(":")[0] not in classes: continue
+    if os.environ.get("MUT_FILES") and not any(m["file"].endswith(x) for x in os.environ["MUT_FILES"].split(",")): continue
+    if os.environ.get("MUT_LINES"):
+        lo, hi = map(int, os.environ["MUT_LINES"].split("-"))
+        if not (lo <= m["line"] <= hi): continue
     if (m["file"], m["line"], m["mut"]) in done: continue
     todo.append(m)
 todo.sort(key=lambda m: (classes.index(m["op"].split(":")[0]), m["file"], m["line"]))
